@@ -36,10 +36,16 @@ def sample(ty, rng):
             n = rng.choice([0, 0, 1, 1, 2, 3, 4, 5, 8, 20, 32, 33, 65, 74, 75, 76, 77, 100, 252, 253, 254, 255, 256, 257, 300, 520])
             if ty.max is not None:
                 n = min(n, ty.max)
+            if getattr(ty, 'min', None) is not None:
+                n = max(n, ty.min)
         mode = rng.random()
         if mode < 0.3:
-            return bytes(rng.choice([0, 0x80, 0xff, 1, 0x7f]) for _ in range(n))
-        return bytes(rng.getrandbits(8) for _ in range(n))
+            v = bytes(rng.choice([0, 0x80, 0xff, 1, 0x7f]) for _ in range(n))
+        else:
+            v = bytes(rng.getrandbits(8) for _ in range(n))
+        if getattr(ty, 'ne', None) is not None and v == ty.ne:
+            v = v + b'\x01'
+        return v
     if isinstance(ty, api._Str):
         n = ty.n if ty.n is not None else rng.randint(0, 12)
         return ''.join(rng.choice('0123456789abcdefABCDEFxyz \'h/') for _ in range(n))
